@@ -112,6 +112,9 @@ class ChainNode(Entity):
 
         # CRAQ: track keys with uncommitted writes
         self._dirty_keys: set[str] = set()
+        # Uncommitted write seqs per key: a key stays dirty until every
+        # in-flight write to it has been committed at the tail.
+        self._dirty_seqs: dict[str, set[int]] = {}
 
         # Pending write futures (HEAD: seq -> SimFuture)
         self._pending_writes: dict[int, SimFuture] = {}
@@ -204,12 +207,13 @@ class ChainNode(Entity):
         self._next_seq += 1
         seq = self._next_seq
 
+        # Mark dirty for CRAQ before the local apply suspends, so that no
+        # concurrent read can see the uncommitted value as clean
+        if self._craq_enabled:
+            self._mark_dirty(key, seq)
+
         # Apply locally
         yield from self._store.put(key, value)
-
-        # Mark dirty for CRAQ
-        if self._craq_enabled:
-            self._dirty_keys.add(key)
 
         if self.next_node is not None:
             # Create ack future
@@ -232,11 +236,11 @@ class ChainNode(Entity):
             # Clean up
             self._pending_writes.pop(seq, None)
             if self._craq_enabled:
-                self._dirty_keys.discard(key)
+                self._mark_clean(key, seq)
         else:
             # Single-node chain (HEAD is also TAIL)
             if self._craq_enabled:
-                self._dirty_keys.discard(key)
+                self._mark_clean(key, seq)
 
         if reply_future is not None:
             reply_future.resolve({"status": "ok", "seq": seq})
@@ -254,11 +258,12 @@ class ChainNode(Entity):
 
         self._propagations_received += 1
 
+        # Mark dirty before the local apply suspends (see _handle_write)
+        if self._craq_enabled:
+            self._mark_dirty(key, seq)
+
         # Apply locally
         yield from self._store.put(key, value)
-
-        if self._craq_enabled:
-            self._dirty_keys.add(key)
 
         if self._role == ChainNodeRole.TAIL:
             # Send ack back to head
@@ -275,7 +280,7 @@ class ChainNode(Entity):
 
             # CRAQ: key is now clean, notify chain
             if self._craq_enabled:
-                self._dirty_keys.discard(key)
+                self._mark_clean(key, seq)
                 # Notify upstream nodes that key is committed
                 events = self._build_commit_notifications(key, seq)
                 if events:
@@ -308,7 +313,22 @@ class ChainNode(Entity):
         metadata = event.context.get("metadata", {})
         key = metadata.get("key")
         if key and self._craq_enabled:
-            self._dirty_keys.discard(key)
+            self._mark_clean(key, metadata.get("seq", 0))
+
+    def _mark_dirty(self, key: str, seq: int) -> None:
+        """CRAQ: record an uncommitted write to ``key``."""
+        self._dirty_seqs.setdefault(key, set()).add(seq)
+        self._dirty_keys.add(key)
+
+    def _mark_clean(self, key: str, seq: int) -> None:
+        """CRAQ: write ``seq`` is committed; key is clean once none are pending."""
+        pending = self._dirty_seqs.get(key)
+        if pending is not None:
+            pending.discard(seq)
+            if pending:
+                return
+            del self._dirty_seqs[key]
+        self._dirty_keys.discard(key)
 
     def _handle_read(
         self,
@@ -320,6 +340,30 @@ class ChainNode(Entity):
         reply_future: SimFuture | None = metadata.get("reply_future")
 
         # CRAQ: if not tail and key is dirty, forward to tail
+        tail = self._craq_forward_target(key)
+        if tail is None:
+            # Serve locally
+            self._reads_served += 1
+            value = yield from self._store.get(key)
+
+            # The key may have become dirty while the local read was suspended
+            tail = self._craq_forward_target(key)
+            if tail is None:
+                if reply_future is not None:
+                    reply_future.resolve({"status": "ok", "value": value})
+                return None
+
+        fwd_event = self._network.send(
+            self,
+            tail,
+            "Read",
+            payload={"key": key, "reply_future": reply_future},
+        )
+        yield 0.0, [fwd_event]
+        return None
+
+    def _craq_forward_target(self, key: str) -> ChainNode | None:
+        """CRAQ: the tail if a read of ``key`` must be forwarded to it, else None."""
         if (
             self._craq_enabled
             and self._role != ChainNodeRole.TAIL
@@ -329,21 +373,7 @@ class ChainNode(Entity):
             # Find tail (last in chain)
             tail = self._find_tail()
             if tail is not None and tail is not self:
-                fwd_event = self._network.send(
-                    self,
-                    tail,
-                    "Read",
-                    payload={"key": key, "reply_future": reply_future},
-                )
-                yield 0.0, [fwd_event]
-                return None
-
-        # Serve locally
-        self._reads_served += 1
-        value = yield from self._store.get(key)
-
-        if reply_future is not None:
-            reply_future.resolve({"status": "ok", "value": value})
+                return tail
         return None
 
     def _find_tail(self) -> ChainNode | None:
